@@ -101,17 +101,24 @@ fn run_real(data: &[u8], target: usize, part: Partition, rng: &mut Rng, refb: &[
     }
     pieces.push((prev, n));
 
-    for (a, b) in pieces {
+    // one run in three hands the last piece over with is_final = true (the chunker's other way to end a stream);
+    // finish() is still called afterwards and must then have nothing left
+    let final_flag_mode = rng.chance(1, 3);
+    let mut final_given = false;
+    let n_pieces = pieces.len();
+    for (pi, (a, b)) in pieces.into_iter().enumerate() {
         let piece = &data[a..b];
+        let is_final = final_flag_mode && pi + 1 == n_pieces && !piece.is_empty();
+        final_given |= is_final;
         if use_next_block || rng.chance(1, 3) {
-            for c in ch.next_block(piece, false) {
+            for c in ch.next_block(piece, is_final) {
                 push(c, &mut out)?;
             }
         } else {
             let mut pos = 0;
             // `next` directly; an empty piece is passed through as an empty call
             loop {
-                let (c, used) = ch.next(&piece[pos..], false);
+                let (c, used) = ch.next(&piece[pos..], is_final);
                 if used > piece.len() - pos {
                     return Err("next() consumed more than given".into());
                 }
@@ -128,6 +135,10 @@ fn run_real(data: &[u8], target: usize, part: Partition, rng: &mut Rng, refb: &[
                 }
             }
         }
+    }
+    let covered = out.last().map(|x| x.0).unwrap_or(0);
+    if final_given && covered != n {
+        return Err(format!("chunks cover {covered} of {n} bytes after the call flagged final"));
     }
     if let Some(c) = ch.finish() {
         push(c, &mut out)?;
